@@ -198,8 +198,15 @@ Proof. vm_compute. split; reflexivity. Qed.
 Example C15_example_check :
   verdict_ok (check_case 4 ex_rq [Nop; Panic (PV 3)] false 500 true [err_chunk]
                 [BEG 1 1 7 7; ERR (PV 3) 7; END 500 1 1 7 7]) = true
-  /\ spec_500 (check_case 4 ex_rq [Body ViaCopyFile 11; Panic (PV 3)] false 200 true [11; err_chunk]
+  /\ spec_records (check_case 4 ex_rq [Body ViaCopyFile 11; Panic (PV 3)] false 200 true [11; err_chunk]
                 [BEG 1 1 7 7; ERR (PV 3) 7; END 500 1 1 7 7]) = false
+  (* no 500 although the handler panicked before any status *)
+  /\ spec_500 (check_case 4 ex_rq [Nop; Panic (PV 3)] false 200 true []
+                [BEG 1 1 7 7; ERR (PV 3) 7; END 200 1 1 7 7]) = false
+  (* a bare 500 without http.Error's text: the property is satisfied, only the body differs from the model *)
+  /\ (let v := check_case 4 ex_rq [Nop; Panic (PV 3)] false 500 true []
+                [BEG 1 1 7 7; ERR (PV 3) 7; END 500 1 1 7 7] in
+      (spec_ok v, model_ok v, model_body v)) = (true, true, false)
   /\ spec_records (check_case 4 ex_rq [Hdr 404] false 404 true [] [BEG 1 1 7 7; END 200 1 1 7 7]) = false
   /\ spec_noescape (check_case 4 ex_rq [Panic (PV 3)] true 0 true [] [BEG 1 1 7 7; END 200 1 1 7 7]) = false
   (* the old Flush as observed: 200 + error text, END 500 *)
